@@ -57,6 +57,12 @@ func parseVerdict(out string) string {
 // verdict is collected (thorough tier) and a sat/unsat disagreement is
 // reported as verdict "disagree".
 func RunSolvers(query string, timeoutS int, all bool, workdir string, tag string) SolverResult {
+	return RunSolversCtx(context.Background(), query, timeoutS, all, workdir, tag)
+}
+
+// RunSolversCtx: as RunSolvers; cancelling parent stops the solver processes (used when another attempt on the
+// same obligation has already succeeded).
+func RunSolversCtx(parent context.Context, query string, timeoutS int, all bool, workdir string, tag string) SolverResult {
 	os.MkdirAll(workdir, 0o755)
 	n := atomic.AddInt64(&queryCounter, 1)
 	file := filepath.Join(workdir, fmt.Sprintf("%04d-%s.smt2", n, sanitizeFile(tag)))
@@ -65,7 +71,7 @@ func RunSolvers(query string, timeoutS int, all bool, workdir string, tag string
 		name, verdict, out string
 		secs               float64
 	}
-	ctx, cancel := context.WithCancel(context.Background())
+	ctx, cancel := context.WithCancel(parent)
 	defer cancel()
 	ch := make(chan one, len(solverSpecs))
 	var wg sync.WaitGroup
